@@ -223,6 +223,11 @@ def run(ctx):
             pts, vt = gen.variant(rng, pts, 0.2)
             fam += vt
         opts = rand_opts(rng, kind)
+        if not fam.startswith('trace') and '@' not in fam and rng.random() < 0.15:
+            # raw counts: integral heights over integral abscissae, delivered as an int64 array most of the time
+            q = np.column_stack([np.round(pts[:, 0]) if np.all(np.diff(np.round(pts[:, 0])) > 0) else np.arange(len(pts), dtype=float), np.floor(pts[:, 1] * rng.choice([64.0, 1024.0]))])
+            if np.ptp(q[:, 1]) > 0:
+                pts, fam, opts = q, fam + '@integer', dict(opts, int_dtype=rng.random() < 0.8)
         if rng.random() < 0.05:
             # raw byte counts as an int64 array: squares / products of coordinate differences exceed 2^63 in the input's own dtype
             from .. import rdpfam
